@@ -501,6 +501,30 @@ def batch_check(names, eol, fix, dest):
         shutil.rmtree(tmp, ignore_errors=True)
 
 
+def boundary_text(pad, layout):
+    """an interchange longer than the reader's 8 KiB buffer (125 sets, about 10 KB) with one value lengthened by `pad`
+    characters, laid out with LF / CRLF after every terminator: slides every terminator and line break across the refill boundary"""
+    t = mini(1, 1, 125, 1).replace('BHT*0019*00*1*', 'BHT*0019*00*' + 'A' * (1 + pad) + '*', 1)
+    return Doc(t).text(layout)
+
+
+def work_boundary(shard):
+    pads, thorough = shard
+    P = core.Part()
+    for pad in pads:
+        for layout in ('lf', 'crlf'):
+            text = boundary_text(pad, layout)
+            for eol, fix, dest in ([(True, False, 'stdout'), (False, False, 'stdout'), (True, True, 'inplace')] if not thorough else OPTS):
+                v, label = check_text(text, eol, fix, dest)
+                P.n += 1
+                if v is None:
+                    continue
+                P.out('boundary|' + label)
+                for k, m in v:
+                    P.bad(k, {'boundary': pad, 'layout': layout, 'eol': eol, 'fix': fix, 'dest': dest}, 'boundary document pad=%d layout=%s: %s' % (pad, layout, m))
+    return P
+
+
 def work_batch(shard):
     pairs, = shard
     P = core.Part()
@@ -520,6 +544,9 @@ def work_batch(shard):
 
 
 def evaluate(case):
+    if 'boundary' in case:
+        v, _ = check_text(boundary_text(case['boundary'], case['layout']), case['eol'], case['fix'], case['dest'])
+        return v or []
     if 'batch' in case:
         v, _ = batch_check(case['batch'], case['eol'], case['fix'], case['dest'])
         return v or []
@@ -622,6 +649,9 @@ def run(R):
         pairs += [(a, b, c3) for a in BATCH_DOCS[:4] for b in BATCH_DOCS[:4] for c3 in BATCH_DOCS[:4]]
     R.pmap(work_batch, [(ch,) for ch in core.chunks(pairs, 32)])
     R.cov['batch_invocations'] = len(pairs) * 8
+    npad = 64 if R.thorough else 40
+    R.pmap(work_boundary, [(list(range(k, npad, 16)), R.thorough) for k in range(16)])
+    R.cov['boundary_documents'] = npad * 2
     c = corpus()
     R.bounds = {'documents': '%d hand-built minimal interchanges (incl. 3 with a group-less TA1-only interchange) + %d suite sources, each as shipped and with reference-correct counts'
                              % (sum(1 for n in c if n.startswith('m')), sum(1 for n in c if n.startswith('s:'))),
